@@ -177,9 +177,18 @@ def impl_reader(chunks, timeout=20.0):
             log.exception = exc
             super().__init__(FIXProtocol44(), "S", "T", Journaler(), "localhost", 0, logger=log)
             self.got = []
+            self.calls = 0
+            self.limit = 10 ** 9
+            self.livelock = False
 
         async def _process_message(self, msg, raw):
             self.got.append([canon_message(msg), list(raw) if raw is not None else []])
+            self.calls += 1
+            if self.calls >= self.limit:
+                # the decode loop returned a message without shortening the buffer more often than
+                # the buffer is long: it would never terminate by itself (model: fuel exhausted, status 2)
+                self.livelock = True
+                self._connection_state = ConnectionState.DISCONNECTED_BROKEN_CONN
 
         async def on_connect(self):
             pass
@@ -193,6 +202,10 @@ def impl_reader(chunks, timeout=20.0):
         statuses = []
         for ch in chunks:
             before = c.errors
+            c.calls = 0
+            c.limit = len(c._msg_buffer) + len(ch) + 1
+            c._connection_state = ConnectionState.ACTIVE
+            c.livelock = False
             c._socket_reader.feed_data(bytes(ch))
             # let the task run until it is parked in read() again
             for _ in range(2000):
@@ -202,7 +215,7 @@ def impl_reader(chunks, timeout=20.0):
             else:
                 statuses.append(2)
                 break
-            statuses.append(1 if c.errors > before else 0)
+            statuses.append(2 if c.livelock else 1 if c.errors > before else 0)
         task.cancel()
         try:
             await task
